@@ -92,3 +92,33 @@ Print Assumptions C06_framing.
 Theorem C06_framing_total : forall s, snd (read_frames s) <> FFuel.
 Proof. intro s. apply frames_total. lia. Qed.
 Print Assumptions C06_framing_total.
+
+(* WebSocket framing (WSConn.GetNextMessage): a peer that sends each valid packet as one
+   websocket message gets exactly those packets handed up, in order, until it closes *)
+Theorem C06_ws_framing : forall ps, Forall valid_pkt ps ->
+  ws_frames (map enc_bytes ps) = (map enc_bytes ps, None).
+Proof. exact ws_frames_stream. Qed.
+Print Assumptions C06_ws_framing.
+
+(* ... and the first message that is not exactly one packet ends the input with its verdict:
+   nothing after it is handed up, everything before it is *)
+Theorem C06_ws_refusal : forall ps bad rest w, Forall valid_pkt ps -> ws_next bad = w -> w <> WOk ->
+  ws_frames (map enc_bytes ps ++ bad :: rest) = (map enc_bytes ps, Some w).
+Proof. exact ws_frames_refused. Qed.
+Print Assumptions C06_ws_refusal.
+
+(* whatever bytes a websocket message holds, what is handed up is one well-formed packet
+   that the packet decoder reads back as exactly that packet; no message panics the framing *)
+Theorem C06_ws_sound : forall m, bytes m -> ws_next m = WOk ->
+  exists p, valid_pkt p /\ m = enc_bytes p /\ decode_pkts m = Ok [p].
+Proof. exact ws_next_ok_inv. Qed.
+Print Assumptions C06_ws_sound.
+
+Theorem C06_ws_total : forall m, ws_next m <> WBad EFuel.
+Proof. exact ws_next_total. Qed.
+Print Assumptions C06_ws_total.
+
+Example C06_example_ws :
+  ws_frames [[4; 0; 0; 2; 9; 9]; [3; 0; 0; 0]; [4; 0; 0; 2; 9]; [3; 0; 0; 0]] = ([[4; 0; 0; 2; 9; 9]; [3; 0; 0; 0]], Some WShort) /\
+  ws_next [4; 0; 0; 1; 9; 9] = WBig /\ ws_next [4; 0] = WBad EPktHeader /\ ws_next [9; 0; 0; 0] = WBad EPktType.
+Proof. vm_compute. repeat split. Qed.
